@@ -83,7 +83,8 @@ func (reader *SSTableReader) getValueAtOffset(iVal IndexVal, skipHashCheck bool)
 	if reader.v0DataReader != nil {
 		value := &proto.DataEntry{}
 		_, err := reader.v0DataReader.ReadNextAt(value, iVal.Offset)
-		if err != nil && err != io.EOF {
+		// an end-of-file here means the index points behind the end of the data file: that's a missing record, not a nil value
+		if err != nil {
 			return nil, fmt.Errorf("error in sstable '%s' while getting value at offset %d: %w",
 				reader.opts.basePath, iVal.Offset, err)
 		}
@@ -91,7 +92,8 @@ func (reader *SSTableReader) getValueAtOffset(iVal IndexVal, skipHashCheck bool)
 		v = value.Value
 	} else {
 		v, err = reader.dataReader.ReadNextAt(iVal.Offset)
-		if err != nil && err != io.EOF {
+		// an end-of-file here means the index points behind the end of the data file: that's a missing record, not a nil value
+		if err != nil {
 			return nil, fmt.Errorf("error in sstable '%s' while getting value at offset %d: %w",
 				reader.opts.basePath, iVal.Offset, err)
 		}
